@@ -195,7 +195,12 @@ impl LsmVerifier {
                 let setsum = Setsum::from_hexdigest(rmed)
                     .ok_or_else(|| corruption(format!("manifest rmed has bad digest: {rmed}")))?;
                 computed_discard += setsum;
-                ssts_to_remove.push(setsum);
+                // NOTE:  A compaction whose output is identical to one of its inputs removes and
+                // re-adds the same table in one transaction.  That table stays live; retiring
+                // it here would unlink a file a later transaction (and its verification) needs.
+                if !edit.added().any(|added| added == rmed) {
+                    ssts_to_remove.push(setsum);
+                }
             }
             if !first {
                 if let Some(log_num) = edit.get_info('L') {
